@@ -70,6 +70,23 @@ Theorem C20_oracle_faithful : forall rq rb h apis ch u v r n b,
 Proof. exact run_oracle. Qed.
 Print Assumptions C20_oracle_faithful.
 
+(* The write clause, explicitly: on a safe trace every create / update / delete of namespaced data of kind k in
+   namespace n is preceded by an allowing review, issued for the user of the header, whose verb and resource are
+   exactly those of the write and whose namespace covers n.  (A review with another verb — e.g. "get" before a
+   delete — does not satisfy it.) *)
+Theorem C20_write_needs_matching_review : forall rq t, safe rq t ->
+  forall pre o k n post, t_evs t = (pre ++ EAcc o k n :: post)%list -> namespaced k = true -> is_read o = false ->
+  exists a, In (EAuth (eff_user rq) (verb_of o) (plural_of k) a true) pre /\ covers a n = true.
+Proof. exact safe_write. Qed.
+Print Assumptions C20_write_needs_matching_review.
+
+(* A read-only user (the oracle never allows create / update / delete): a checked handler performs no write at all. *)
+Theorem C20_read_only_no_write : forall h rq rb apis ch, check h = true ->
+  (forall u v r n, v = "create" \/ v = "update" \/ v = "delete" -> rb u v r n = false) ->
+  forall o k n, In (EAcc o k n) (t_evs (run h rq rb apis ch)) -> namespaced k = true -> is_read o = true.
+Proof. exact read_only_no_write. Qed.
+Print Assumptions C20_read_only_no_write.
+
 (* The executable monitor evaluated on implementation traces: implied for model traces, and it implies [safe]. *)
 Theorem C20_monitor_sound : forall h rq rb apis ch, check h = true -> safeb rq (run h rq rb apis ch) = true.
 Proof. exact check_safeb. Qed.
@@ -102,6 +119,18 @@ Proof.
   destruct S1 as (u & v & r & a & [I|[]] & _). discriminate I.
 Qed.
 Print Assumptions C20_trial_templates_refuted.
+
+(* ---- the checker distinguishes verbs: DeleteExperiment's skeleton with a "get" review instead of "delete" is rejected,
+   and with a read-only oracle its trace deletes after an allowed "get" review: unsafe *)
+Example C20_wrong_verb_rejected :
+  let h v := [ RequireParam "namespace" 400; Auth v "experiments" (NsParam "namespace") GStd;
+               Access OGet KExperiment (NsParam "namespace") 1; Guard 500;
+               Access ODelete KExperiment (NsParam "namespace") 2; Guard 500 ] in
+  check (h "delete") = true /\ check (h "get") = false /\
+  safeb (Req "bob" "bob" [("namespace", "mine")] [] [] [])
+        (run (h "get") (Req "bob" "bob" [("namespace", "mine")] [] [] [])
+             (fun _ v _ _ => String.eqb v "get" || String.eqb v "list") [AOk ["mine"]; AOk []] []) = false.
+Proof. vm_compute. auto. Qed.
 
 (* ---- non-vacuity: a checked skeleton (shape of FetchHPJobInfo) and a request that is allowed: the trace has two
    reviews, three accesses and a 200 answer carrying objects of the authorised namespace *)
